@@ -22,7 +22,8 @@ rm $wt/$(basename $demo)
 suite() { (cd $wt && go test -vet=off -count=1 ./... 2>&1 | grep -E "^--- FAIL" | grep -v TestSaveLoadNumpy); }
 s=$(suite); if [ -n "$s" ]; then s=$(suite); fi
 [ -n "$s" ] && fail "pinned suite notices: $s"
-props="$@"; [ -z "$props" ] && props="C01 C02 C03 C04 C05 C06 C07 C08 C09 C10 C11 C12 C13 C14 C15 C16 C17 C18 C19 C20"
+props="$@"; [ -z "$props" ] && props="$prop C13 C16 C17 C19"
+[ "$props" = "all" ] && props="C01 C02 C03 C04 C05 C06 C07 C08 C09 C10 C11 C12 C13 C14 C15 C16 C17 C18 C19 C20"
 caught=""; incon=""
 for p in $props; do
   out=$(cd /verif && VERIF_REPO=$wt ./check $p --tier quick 2>&1); rc=$?
